@@ -260,6 +260,12 @@ class SymBackend(BackendBase):
     def mklist(self, values):
         return PList(self.I, list(values))
 
+    def symlist(self, values, n):
+        """the first n (symbolic) of the given values"""
+        if isinstance(n, int):
+            return PList(self.I, list(values)[:n])
+        return PList(self.I, list(values), sym_n=n.term)
+
     def mktuple(self, values):
         return PList(self.I, list(values), frozen=True)
 
@@ -280,6 +286,22 @@ class SymBackend(BackendBase):
         self.objects[name] = u
         self.holes.append(("uf", name, u, [list(d) for d in domains], ft))
         return u
+
+    # ---- C10: the abstract base pickler
+    def with_fake_dill(self, src):
+        """make ``import dill`` resolve to the given source (an abstract recursive pickler) and import the real
+        edgegraph.output.nrpickler on top of it; returns the nrpickler module's namespace + the stub's"""
+        dill = PModule("dill", {"__name__": "dill", "depth_probe": P.NativeFunc(lambda it, a, k: self.I.depth, "depth_probe")})
+        self.I.modules["dill"] = dill
+        self.I.exec_block(_parse(src).body, Frame(dill.globs, dill.globs))
+        self.I.modules.pop("edgegraph.output.nrpickler", None)
+        nr = self.I.import_module("edgegraph.output.nrpickler")
+        env = dict(dill.globs)
+        env["nrpickler"] = nr
+        return env
+
+    def native_only(self, fn):
+        """obligations that exist on the native side only (concrete replays)"""
 
     # ---- random number generator (stubbed: every answer symbolic)
     def install_rng(self):
@@ -678,6 +700,11 @@ class SymBackend(BackendBase):
             st.errors.append(f"native replay of a path witness failed: {res['error']}\nholes={json.dumps(holes)}")
             return
         bad = [n for n, ok in res["obligations"] if not ok]
+        if bad and all(n.startswith("[native replay]") for n in bad):
+            # obligations that only exist natively (concrete replays of the path's witness): a real violation
+            st.failed.append({"obligation": bad[0], "reproduced": True, "native_failed": bad, "meta": res.get("meta", {}),
+                              "scenario": {"check": self.check_id, "params": self.params, "holes": holes}})
+            return
         if bad:
             st.errors.append(f"witness mismatch: obligations {bad} proved symbolically but false natively\n"
                              f"params={json.dumps(self.params)} holes={json.dumps(holes)}")
